@@ -694,6 +694,8 @@ def describe(prop):
             "the family's law is written down independently with scipy.stats frozen distributions (reference model for evaluation)",
             "a fit that raises TypeError/AttributeError/KeyError/NotImplementedError/AssertionError for a supported (subset, method) pair is a violation; numerical estimator failures are inconclusive",
             "least squares is 'supported' only for the exponentiated Weibull with delta fixed (the class raises NotImplementedError otherwise by design)",
+            'I6 (free parameters are the maximum-likelihood estimates given the fixed ones, 1e-5 per observation for a 0.2 % / 2 % change) is judged for Normal, LogNormal, von Mises and scipy-backed Gumbel only: the three-parameter families have unbounded likelihoods, LogNormalNormFit estimates by moments',
+            "conditional sampling (3000 equal conditioning values) is judged by DKW at 1e-12 against the family's law at {fixed value, dependence values}",
         ],
-        "probes": ["clean-fit-after-failed-fit", "rejected-data-accepted", "bystander-object-alive", "continued-on-deep-copy"],
+        "probes": ["clean-fit-after-failed-fit", "rejected-data-accepted", "bystander-object-alive", "continued-on-deep-copy", "unsupported-lsq-subset-refused", "refit-returned-its-start-values-which-are-near-optimal"],
     }
